@@ -336,10 +336,13 @@ impl AtomicCacheMetrics {
         self.entry_count.fetch_add(1, Ordering::Relaxed);
 
         // Update memory usage and max atomically
+        // fetch_add wraps; so must the value derived from it. The gauge can be below
+        // zero for a moment when an eviction or a reset is recorded before the put it
+        // belongs to (metrics are updated outside the cache's critical sections).
         let new_memory = self
             .memory_usage_bytes
             .fetch_add(size_bytes, Ordering::Relaxed)
-            + size_bytes;
+            .wrapping_add(size_bytes);
         self.max_memory_usage_bytes
             .fetch_max(new_memory, Ordering::Relaxed);
 
